@@ -2,6 +2,7 @@ package main
 
 import (
 	"fmt"
+	"go/token"
 	"go/types"
 	"sort"
 	"strings"
@@ -354,7 +355,7 @@ func ruleStepUpDown(c *Ctx) {
 
 func init() {
 	register("C03", "Only the current leaseholder serves or persists leader-only state", func(c *Ctx) {
-		c.Group("C03/campaign", "campaign = create-if-absent put of the leader key bound to the lease; a lost campaign closes the lease; Check() depends on lease expiry", func() { ruleCampaignShape(c) })
+		c.Group("C03/campaign", "campaign = create-if-absent put of the leader key bound to the lease; a lost campaign closes the lease; Check() depends on lease expiry", func() { ruleCampaignShape(c); ruleLeaseExpiryConservative(c) })
 		c.Group("C03/leader-guarded-write", "every etcd write of a leader-only key class (time window, id window, member priority, dc-location removal, encryption keys) is conditional on the leader record and reports success only when applied", func() {
 			ruleLeaderOnlyKeys(c, "")
 			// the one leader-only write whose transaction does not compare the leader record
@@ -365,7 +366,90 @@ func init() {
 		c.Group("C03/global-generate", "(shared with C01) the global path re-checks the lease after its last write", func() { ruleGlobalGenerate(c) })
 		c.Group("C03/lease-before-write", "user resets and periodic updates test the lease before they save or write", func() { ruleLeaseBeforeWrites(c) })
 		c.Group("C03/serve-after-init", "the leader serves only after every leader-only resource was re-initialised; it steps down when the lease check fails", func() { ruleStepUpDown(c) })
+		c.Group("C03/id-window", "(shared with C04) the id window is adopted in memory only after the leader-guarded window transaction was applied: a deposed leader cannot hand out ids from a window it was refused", func() { ruleIDAllocator(c) })
 		c.Group("C03/window-txn", "(shared with C02) the time-window transaction is leader-guarded and only an applied write is remembered", func() { ruleSaveTimestampShape(c) })
 		c.Group("C03/reset-on-failure", "(shared with C02) losing the window or the campaign resets allocator and leadership", func() { ruleResetOnFailure(c); ruleResetGroupUnconditional(c) })
 	})
+}
+
+// ruleLeaseExpiryConservative: the local view of the lease must never outlive
+// etcd's. etcd counts the TTL from the moment it handled the request, so the
+// local expiry is "a clock reading taken before the request was sent + TTL".
+// A reading taken after the answer arrived lets Check() stay true for the
+// round-trip time after etcd already expired the lease and another member won.
+func ruleLeaseExpiryConservative(c *Ctx) {
+	P := c.P
+	rule := c.Prop + "/campaign"
+	const ev3 = "go.etcd.io/etcd/clientv3"
+	grant := P.IMethod(ev3, "Lease", "Grant")
+	keep := P.IMethod(ev3, "Lease", "KeepAliveOnce")
+	isStd := func(v ssa.Value, pkg, name string) *ssa.Call {
+		cl, ok := strip(v).(*ssa.Call)
+		if !ok {
+			return nil
+		}
+		f := cl.Call.StaticCallee()
+		if f == nil || f.Pkg == nil || f.Pkg.Pkg.Path() != pkg || f.Name() != name {
+			return nil
+		}
+		return cl
+	}
+	isTTL := func(v ssa.Value) bool {
+		u, ok := v.(*ssa.UnOp)
+		if !ok || u.Op != token.MUL {
+			return false
+		}
+		f := fieldOfAddr(u.X)
+		return f != nil && f.Name() == "TTL"
+	}
+	n := 0
+	for _, fn := range P.Funcs {
+		if P.isScaffold(fn) || fnPkgPath(fn) != modPath+"/server/election" {
+			continue
+		}
+		reqs := callsIn(fn, false, grant, keep)
+		if len(reqs) == 0 {
+			continue
+		}
+		c.saw(fnName(fn))
+		adds := 0
+		for _, b := range fn.Blocks {
+			for _, ins := range b.Instrs {
+				add := func() *ssa.Call {
+					if v, ok := ins.(ssa.Value); ok {
+						return isStd(v, "time", "Add")
+					}
+					return nil
+				}()
+				if add == nil || len(add.Call.Args) != 2 || !derivesFrom(add.Call.Args[1], isTTL, 6) {
+					continue
+				}
+				adds++
+				n++
+				// the base of the expiry: clock readings it can come from
+				var nows []*ssa.Call
+				derivesFrom(add.Call.Args[0], func(v ssa.Value) bool {
+					if cl := isStd(v, "time", "Now"); cl != nil {
+						nows = append(nows, cl)
+					}
+					return false
+				}, 6)
+				ok, why := len(nows) > 0, "the base of the expiry is not a clock reading of this function"
+				for _, now := range nows {
+					for _, rq := range reqs {
+						if !instrReaches(now, rq.(ssa.Instruction)) || instrReaches(rq.(ssa.Instruction), now) {
+							ok, why = false, "the clock is read at "+P.instrPos(now)+", which is not before the request at "+P.instrPos(rq.(ssa.Instruction))
+						}
+					}
+				}
+				c.Check(ok, rule, fmt.Sprintf("expiry #%d computed in %s", adds, fnName(fn)), "reading of the clock taken before the lease request was sent + granted TTL (the local lease never outlives etcd's)", P.instrPos(add), why)
+			}
+		}
+		if adds == 0 {
+			c.Undec(rule, "expiry computed from the TTL in "+fnName(fn), "found", P.pos(fn.Pos()), "")
+		}
+	}
+	if n < 2 {
+		c.Undec(rule, "lease requests whose answer sets the expiry (Grant, KeepAliveOnce)", "2", "", fmt.Sprint(n))
+	}
 }
